@@ -304,6 +304,17 @@ func (f *pFrame) hasInteriorZero(edge int) bool {
 	return false
 }
 
+// framesToCptv converts a generated frame into the decoded form (for direct recorder use).
+func framesToCptv(f *pFrame, cam pCamera) *cptvframe.Frame {
+	out := cptvframe.NewFrame(vSpec{cam.ResX, cam.ResY, cam.FPS})
+	for y := range f.Pix {
+		copy(out.Pix[y], f.Pix[y])
+	}
+	out.Status = cptvframe.Telemetry{TimeOn: time.Duration(f.TimeOnMS) * time.Millisecond, LastFFCTime: time.Duration(f.LastFFCMS) * time.Millisecond, FrameCount: f.Seq,
+		TempC: centiKToC(f.FPATempCK), LastFFCTempC: centiKToC(f.FPAFFCCK)}
+	return out
+}
+
 func centiKToC(ck uint16) float64 { return float64(int(ck)-27315) / 100 }
 
 func newPix(x, y int, v uint16) [][]uint16 {
